@@ -64,7 +64,8 @@ Record task := {
   t_sid : option N;            (* stream opened by this task *)
   t_verdict : option res;      (* the one-shot open verdict, once resolved *)
   t_rq : nat;                  (* chunks queued for this task's stream reader *)
-  t_rclosed : bool             (* the queue's sender was dropped *)
+  t_rclosed : bool;            (* the queue's sender was dropped *)
+  t_sub : list frame           (* ghost: frames this task has submitted (write_frame entered), in order *)
 }.
 
 Record state := {
@@ -88,7 +89,7 @@ Definition rtid : tid := 0%nat.
 
 Definition idle_task (prog : list call) : task :=
   {| t_prog := prog; t_pc := PIdle; t_res := []; t_sid := None; t_verdict := None;
-     t_rq := 0; t_rclosed := false |}.
+     t_rq := 0; t_rclosed := false; t_sub := [] |}.
 
 Definition upd (f : tid -> task) (t : tid) (v : task) : tid -> task :=
   fun t' => if Nat.eqb t' t then v else f t'.
@@ -102,25 +103,38 @@ Definition set_task (s : state) (t : tid) (v : task) : state := set_tasks s (upd
 
 Definition with_pc (x : task) (p : pc) : task :=
   {| t_prog := t_prog x; t_pc := p; t_res := t_res x; t_sid := t_sid x; t_verdict := t_verdict x;
-     t_rq := t_rq x; t_rclosed := t_rclosed x |}.
+     t_rq := t_rq x; t_rclosed := t_rclosed x; t_sub := t_sub x |}.
 Definition with_res (x : task) (r : res) : task :=
   {| t_prog := t_prog x; t_pc := PIdle; t_res := t_res x ++ [r]; t_sid := t_sid x;
-     t_verdict := t_verdict x; t_rq := t_rq x; t_rclosed := t_rclosed x |}.
+     t_verdict := t_verdict x; t_rq := t_rq x; t_rclosed := t_rclosed x; t_sub := t_sub x |}.
 Definition with_prog (x : task) (p : list call) : task :=
   {| t_prog := p; t_pc := t_pc x; t_res := t_res x; t_sid := t_sid x; t_verdict := t_verdict x;
-     t_rq := t_rq x; t_rclosed := t_rclosed x |}.
+     t_rq := t_rq x; t_rclosed := t_rclosed x; t_sub := t_sub x |}.
 Definition with_sid (x : task) (sid : N) : task :=
   {| t_prog := t_prog x; t_pc := t_pc x; t_res := t_res x; t_sid := Some sid; t_verdict := None;
-     t_rq := 0; t_rclosed := false |}.
+     t_rq := 0; t_rclosed := false; t_sub := t_sub x |}.
 Definition with_verdict (x : task) (v : option res) : task :=
   {| t_prog := t_prog x; t_pc := t_pc x; t_res := t_res x; t_sid := t_sid x; t_verdict := v;
-     t_rq := t_rq x; t_rclosed := t_rclosed x |}.
+     t_rq := t_rq x; t_rclosed := t_rclosed x; t_sub := t_sub x |}.
 Definition with_rq (x : task) (q : nat) (c : bool) : task :=
   {| t_prog := t_prog x; t_pc := t_pc x; t_res := t_res x; t_sid := t_sid x; t_verdict := t_verdict x;
-     t_rq := q; t_rclosed := c |}.
+     t_rq := q; t_rclosed := c; t_sub := t_sub x |}.
+Definition with_sub (x : task) (f : frame) : task :=
+  {| t_prog := t_prog x; t_pc := t_pc x; t_res := t_res x; t_sid := t_sid x; t_verdict := t_verdict x;
+     t_rq := t_rq x; t_rclosed := t_rclosed x; t_sub := t_sub x ++ [f] |}.
+Definition clear_sid (x : task) : task :=
+  {| t_prog := t_prog x; t_pc := t_pc x; t_res := t_res x; t_sid := None; t_verdict := t_verdict x;
+     t_rq := t_rq x; t_rclosed := t_rclosed x; t_sub := t_sub x |}.
 
 Definition set_pc (s : state) (t : tid) (p : pc) : state := set_task s t (with_pc (tasks s t) p).
 Definition finish (s : state) (t : tid) (r : res) : state := set_task s t (with_res (tasks s t) r).
+(* end of a write_frame call: an open_stream whose SYN failed returns Err, the caller has no stream handle *)
+Definition finish_w (s : state) (t : tid) (k : wk) (r : res) : state :=
+  match k, r with
+  | WkOpen, ResOk => finish s t r
+  | WkOpen, _ => set_task s t (with_res (clear_sid (tasks s t)) r)
+  | WkPlain, _ => finish s t r
+  end.
 
 Definition set_flags (s : state) (b c sh fl ra : bool) : state :=
   {| buffering := b; pending := pending s; wr := wr s; waiters := waiters s; pkt := pkt s;
@@ -150,10 +164,10 @@ Definition set_table (s : state) (n : N) (tb : list (N * tid)) : state :=
      table := tb; ralive := ralive s; tasks := tasks s; lin := lin s |}.
 
 (* ---- close(): what the finished close returns into ---- *)
-Definition finish_close (s : state) (t : tid) (a : after) : state :=
+Definition finish_close (s : state) (t : tid) (a : after) (k : wk) : state :=
   match a with
   | AfterClose => finish s t ResOk
-  | AfterIoErr => finish s t ResIo
+  | AfterIoErr => finish_w s t k ResIo
   | AfterRecv => set_rdead (set_pc s t PIdle)
   end.
 
@@ -165,7 +179,7 @@ Fixpoint release_ws (ws : list tid) (s : state) : state :=
   | w :: ws' =>
       match t_pc (tasks s w) with
       | PW2wait k f => set_pc (set_lock s (Some w) ws') w (PW3 k f)
-      | PC2wait a k => release_ws ws' (finish_close (set_shut s) w a)
+      | PC2wait a k => release_ws ws' (finish_close (set_shut s) w a k)
       | _ => set_lock s None []          (* unreachable: only waiting tasks are queued *)
       end
   end.
@@ -173,7 +187,7 @@ Definition release (s : state) : state := release_ws (waiters s) s.
 
 (* the swap at the head of close() *)
 Definition enter_close (s : state) (t : tid) (a : after) (k : wk) : state :=
-  if closed s then finish_close s t a
+  if closed s then finish_close s t a k
   else set_pc (set_closed s) t (PC1 a k).
 
 (* drain of the stream tables in close(): every registered stream gets its verdict resolved
@@ -236,10 +250,10 @@ Definition start_call (s : state) (t : tid) (c : call) (rest : list call) : opti
   let x := with_prog (tasks s t) rest in
   let s0 := set_task s t x in
   match c with
-  | CWrite f => Some (set_pc s0 t (PW0 WkPlain f))
+  | CWrite f => Some (set_task s0 t (with_pc (with_sub x f) (PW0 WkPlain f)))
   | CData d =>
       match t_sid x with
-      | Some sid => Some (set_pc s0 t (PW0 WkPlain (psh_frame sid d)))
+      | Some sid => Some (set_task s0 t (with_pc (with_sub x (psh_frame sid d)) (PW0 WkPlain (psh_frame sid d))))
       | None => Some (finish s0 t ResNoStream)
       end
   | COpen =>
@@ -249,19 +263,22 @@ Definition start_call (s : state) (t : tid) (c : call) (rest : list call) : opti
         let s1 := set_table s0 (sid + 1) (table s ++ [(sid, t)]) in
         Some (set_task s1 t (with_pc (with_sid x sid) (PO1 sid)))
   | CAwait =>
-      match t_verdict x with
-      | Some r => Some (finish s0 t r)
-      | None => None
+      match t_sid x, t_verdict x with
+      | None, _ => Some (finish s0 t ResNoStream)
+      | Some _, Some r => Some (finish s0 t r)
+      | Some _, None => None
       end
   | CTimeout =>
-      match t_verdict x with
-      | Some r => Some (finish s0 t r)
-      | None => Some (finish (set_task s0 t (with_verdict x (Some ResTimeout))) t ResTimeout)
+      match t_sid x, t_verdict x with
+      | None, _ => Some (finish s0 t ResNoStream)
+      | Some _, Some r => Some (finish s0 t r)
+      | Some _, None => Some (finish (set_task s0 t (with_verdict x (Some ResTimeout))) t ResTimeout)
       end
   | CRead =>
-      match t_rq x with
-      | S q => Some (finish (set_task s0 t (with_rq x q (t_rclosed x))) t ResData)
-      | O => if t_rclosed x then Some (finish s0 t ResEof) else None
+      match t_sid x, t_rq x with
+      | None, _ => Some (finish s0 t ResNoStream)
+      | Some _, S q => Some (finish (set_task s0 t (with_rq x q (t_rclosed x))) t ResData)
+      | Some _, O => if t_rclosed x then Some (finish s0 t ResEof) else None
       end
   | CClose => Some (enter_close s0 t AfterClose WkPlain)
   | CDisableBuf => Some (finish (set_buffering s0 false) t ResOk)
@@ -279,11 +296,11 @@ Definition step (s : state) (t : tid) : option state :=
       | c :: rest => start_call s t c rest
       end
   | PW0 k f =>
-      if closed s then Some (finish s t ResClosed)
+      if closed s then Some (finish_w s t k ResClosed)
       else if buffering s then Some (set_pc s t (PW1 k f))
       else Some (set_pc s t (PW2 k f))
   | PW1 k f =>
-      Some (finish (set_queue s (pending s ++ [(t, f)]) (lin s ++ [(t, f)])) t ResOk)
+      Some (finish_w (set_queue s (pending s ++ [(t, f)]) (lin s ++ [(t, f)])) t k ResOk)
   | PW2 k f =>
       match wr s with
       | None => Some (set_pc (set_lock s (Some t) (waiters s)) t (PW3 k f))
@@ -296,17 +313,17 @@ Definition step (s : state) (t : tid) : option state :=
       let n := pkt s + 1 in
       if failing s || shut s
       then Some (set_pc (release (set_wire s n (wire s))) t (PE0 AfterIoErr k))
-      else Some (finish (release (set_wire s n (wire s ++ [(n, held)]))) t ResOk)
+      else Some (finish_w (release (set_wire s n (wire s ++ [(n, held)]))) t k ResOk)
   | PE0 a k => Some (enter_close s t a k)
   | PC1 a k =>
       Some (set_pc (set_table (set_tasks s (drain (table s) (tasks s))) (next_sid s) []) t (PC2 a k))
   | PC2 a k =>
       match wr s with
-      | None => Some (finish_close (set_shut s) t a)
+      | None => Some (finish_close (set_shut s) t a k)
       | Some _ => Some (set_pc (set_lock s (wr s) (waiters s ++ [t])) t (PC2wait a k))
       end
   | PC2wait _ _ => None
-  | PO1 sid => Some (set_pc s t (PW0 WkOpen (syn_frame sid)))
+  | PO1 sid => Some (set_task s t (with_pc (with_sub x (syn_frame sid)) (PW0 WkOpen (syn_frame sid))))
   end.
 
 (* a schedule is a list of task ids; a grant to a task that cannot move is a stutter *)
